@@ -699,6 +699,15 @@ func HarnessC30Precond() {
 	zzvCheck(q, size, zzvServe(q, size))
 }
 
+// zzvMultiIfRange: If-Range absent / matching / other for lists of two; absent / other for longer lists
+// (a matching If-Range behaves like an absent one, see HarnessC30Single and the lists of two).
+func zzvMultiIfRange(ns int) int {
+	if ns > 2 {
+		return 2 * verifrt.NondetRange("ifRange", 0, 1)
+	}
+	return verifrt.NondetRange("ifRange", 0, 2)
+}
+
 // HarnessC30Multi: lists of 2..NS range specs over the first FORMS forms, If-Range absent/matching/other,
 // GET/HEAD, UnixFS-file pipeline.
 func HarnessC30Multi() {
@@ -707,7 +716,7 @@ func HarnessC30Multi() {
 	q.head = verifrt.NondetRange("head", 0, 1) == 1
 	ns := verifrt.NondetRange("nspec", 2, verifrt.Param("NS", 2))
 	q.specs = zzvDrawSpecs(ns, verifrt.Param("FORMS", zzvNForms))
-	q.ifRange = verifrt.NondetRange("ifRange", 0, 2)
+	q.ifRange = zzvMultiIfRange(ns)
 	size := zzvSize()
 	zzvCheck(q, size, zzvServe(q, size))
 }
@@ -719,7 +728,7 @@ func HarnessC30MultiRaw() {
 	q.head = verifrt.NondetRange("head", 0, 1) == 1
 	ns := verifrt.NondetRange("nspec", 2, verifrt.Param("NS", 2))
 	q.specs = zzvDrawSpecs(ns, verifrt.Param("FORMS", zzvNForms))
-	q.ifRange = verifrt.NondetRange("ifRange", 0, 2)
+	q.ifRange = zzvMultiIfRange(ns)
 	size := zzvSize()
 	zzvCheck(q, size, zzvServe(q, size))
 }
